@@ -457,6 +457,8 @@ func init() {
 					}()
 				case "c01real":
 					w.Real = c01parseReal(src)
+				case "stmt":
+					w.Real = c20stReal(src)
 				case "world":
 					w = c20WorldLocal(src)
 				}
@@ -1762,4 +1764,7 @@ func c20_runC20(e *Env) {
 	// several lexers in one process: quoted lines after other lexers were created, and errors whose
 	// last token is a template string (c20world.go; its own fork, taken last)
 	c20WorldStream(e, e.Rng.Fork())
+	// statement level: statement trees x layouts, real parser vs the statement model of Stmt.lean on
+	// the same text (c20stmt.go; its own fork, taken last)
+	c20StmtStream(e, e.Rng.Fork())
 }
